@@ -137,6 +137,9 @@ pub(crate) fn single_result(s: &SState) -> Option<(i32, u32)> {
         _ => None,
     }
 }
+pub(crate) fn cflags(f: u32) -> CompletionFlags {
+    CompletionFlags(f)
+}
 pub(crate) fn cr(result: i32, flags: u32) -> CompletionResult {
     CompletionResult { flags: CompletionFlags(flags), result }
 }
@@ -830,4 +833,32 @@ fn process_single_dropped() {
     std::mem::forget(s);
     kani::cover!(more, "more coming");
     kani::cover!(!more, "final");
+}
+
+// =========================================================================================
+// Helper for C07/C08 "abandoned operation" obligations: what Completion::process does for an operation whose
+// future was dropped while in flight, when its final completion (res, flags) arrives: update(Dropped) => Drop,
+// then the erased destructor.  Generic over the real Resources/Args of any operation.
+// Returns true if the state was freed.
+// =========================================================================================
+pub(crate) fn abandoned_final_completion<R, A>(resources: R, args: A, res: i32, flags: u32) -> bool {
+    let s: State<Singleshot, R, A> = State::new(resources, args);
+    {
+        let mut sh = crate::lock(&data_of(&s).shared);
+        sh.status = Status::Dropped { drop: drop_state::<Singleshot, R, A> };
+    }
+    let c = cqe(s.user_data(), res, flags);
+    let upd = crate::lock(&data_of(&s).shared).update(&c);
+    let freed = match upd {
+        StatusUpdate::Drop { drop: _ } => {
+            unsafe { drop_state::<Singleshot, R, A>(s.data.as_ptr().cast()) };
+            true
+        }
+        other => {
+            std::mem::forget(other);
+            false
+        }
+    };
+    std::mem::forget(s);
+    freed
 }
